@@ -80,6 +80,10 @@ impl<K, V, S> HashMap<K, V, S> {
         self.items.clear();
         self.order = Order::ID;
     }
+    /// Draw a fresh iteration order (models "another process / another hash seed").
+    pub fn redraw_order(&mut self) {
+        self.order = Order::draw(self.items.len());
+    }
     pub fn iter(&self) -> Iter<'_, K, V> {
         Iter { items: &self.items, order: self.order, i: 0 }
     }
